@@ -283,6 +283,28 @@ def check(facts):
                 continue
             for ai, pn in want:
                 n_entry += 1
+                if pn == "start" and fn.endswith("::find_from_utf16"):
+                    # UTF-16 has two-unit characters and no boundary assert: the start must be normalised so that it does not split a
+                    # surrogate pair (stepping left from a later position decodes the whole pair and passes a start between its halves)
+                    key = "%s establishes a character boundary for `start`" % fn
+                    a = t["args"][ai]
+                    okb = False
+                    if a.get("k") in ("copy", "move"):
+                        d0 = b.single_def(b.root_of(a["pl"]["l"])[0])
+                        if d0 and d0[2] == "call" and facts.has_body(d0[3].get("callee") or ""):
+                            cb = facts.body(d0[3]["callee"])
+                            preds = {(tt.get("callee") or "").split("::")[-1] for _, tt in cb.iter_calls()}
+                            passes_start = any(x.get("k") in ("copy", "move") and b.root_of(x["pl"]["l"])[0] == pname.get("start")
+                                               for x in d0[3]["args"])
+                            okb = {"is_low_surrogate", "is_high_surrogate"} <= preds and passes_start
+                    if okb:
+                        r.ok(key, "start goes through %s" % d0[3]["callee"].split("::")[-1])
+                    else:
+                        r.fail(key, "find_from_utf16 hands `start` to the executor without checking that it does not split a surrogate pair: "
+                                    "from a start between the two halves, forward steps see a lone low surrogate but backward steps decode the "
+                                    "pair and pass the start, so loop backtracking runs off the left of its range (out-of-bounds reads in the "
+                                    "unchecked build)", facts.loc(fn, t.get("line")))
+                    continue
                 rt, fields = param_root(b, t["args"][ai])
                 key = "%s passes `%s` to %s unchanged" % (fn, pn, cal.split("::")[-2].split("<")[0] + "::" + cal.split("::")[-1] if "Matches" in cal else cal)
                 if rt is not None and rt == pname.get(pn) and not fields:
